@@ -1,6 +1,6 @@
 (** * C06/C16 runner: Transform model on primitive floats against the f64 build.
     Constructors pass through libm: compared at 1e-12; everything else bit for bit. *)
-From G3 Require Import Run.Harness Model.Vec Model.BBox Model.Transform.
+From G3 Require Import Run.Harness Model.Vec Model.BBox Model.Transform Model.Hit.
 
 Definition K := float.
 Definition fl (l : list spec_float) (i : nat) : K := SF2Prim (nthsf l i).
@@ -40,7 +40,11 @@ Definition apply_op (t : Tr K) (op : N) (i : list spec_float) : list K :=
   | 15 => pe_out (vec_with_error (elements t) p) | 16 => pe_out (vec_with_error (inv_elements t) p)
   | 17 => pe_out (vec_propagate_error (elements t) p q) | 18 => pe_out (vec_propagate_error (inv_elements t) p q)
   | 19 => ray_out (tr_ray_propagate t ray (v_of i 6) (v_of i 9))
-  | _ => ray_out (tr_inv_ray_propagate t ray (v_of i 6) (v_of i 9))
+  | 20 => ray_out (tr_inv_ray_propagate t ray (v_of i 6) (v_of i 9))
+  | 21 => let o := info_transform (mkInfo p q Front (v_of i 6) (v_of i 9)) t in
+          v_list (ip o) ++ v_list (inormal o) ++ v_list (idpdu o) ++ v_list (idpdv o)
+  | _ => let o := info_inv_transform (mkInfo p q Front (v_of i 6) (v_of i 9)) t in
+          v_list (ip o) ++ v_list (inormal o) ++ v_list (idpdu o) ++ v_list (idpdv o)
   end%N.
 
 Definition ctor (k : N) (a : list spec_float) : Tr K :=
